@@ -109,14 +109,26 @@ def find_neighbor_pairs_index(seqs: Seq(Str, "list"), neighborhood: Neighborhood
     ensures(no_duplicates(result), name="post[each partner once]")
 
 
-# find_neighbor_pairs: the loop removes each processed sequence from the reference set while appending to the result (a state-carrying
-# loop over sorted(set(seqs)) whose invariant needs an ordered view of sorted(): outside what the generator handles).  Its contract is
-# therefore NOT discharged deductively: it is `trusted` for callers and run concretely as a BOUNDED stand-in (pyvc/bounded_plugins.py).
-@contract("pyrepseq.distance.find_neighbor_pairs", props=["C12"], scope="neighbor_pairs_sets", trusted=True)
+# find_neighbor_pairs: a state-carrying loop over sorted(set(seqs)) that removes each processed sequence from the reference set while
+# appending pairs.  Loop invariant over the ordered model of sorted(<set of str>) (strictly increasing, exactly the set's elements).
+@contract("pyrepseq.distance.find_neighbor_pairs", props=["C12"], scope="neighbor_pairs_sets")
 def find_neighbor_pairs(seqs: Seq(Str, "list"), neighborhood: NeighborhoodT()):
+    # a distance-1 relation: nothing is its own neighbour, and neighbourhood is symmetric (true of both generators of this module)
+    requires(forall(TStr, lambda z: not related(neighborhood, z, z)))
+    requires(forall(TStr, TStr, lambda u, w: related(neighborhood, u, w) == related(neighborhood, w, u)))
     raises(None)
-    # each unordered pair of distinct given sequences one of which is yielded for the other: exactly once, smaller sequence first
-    ensures(forall_in(result, lambda t: (t[0] in seqs) and (t[1] in seqs) and t[0] < t[1] and related(neighborhood, t[0], t[1])), name="post[sound]")
-    ensures(forall_in(seqs, lambda a: forall_in(seqs, lambda b: implies(a < b and related(neighborhood, a, b), member(result, (a, b))))),
-            name="post[complete]")
-    ensures(no_duplicates(result), name="post[each pair once]")
+    loop("loop1", "inv", modifies={"reference": SetT(Str), "pairs": Seq(TupleT(Str, Str), "list")},
+         inv=[forall(TStr, lambda y: (y in reference) == ((y in set(seqs)) and forall(TInt, lambda k: implies(0 <= k and k < _i, sorted(set(seqs))[k] != y)))),
+              forall_in(pairs, lambda t: (t[0] in set(seqs)) and (t[1] in set(seqs)) and t[0] < t[1] and related(neighborhood, t[0], t[1])
+                        and exists(TInt, lambda a: 0 <= a and a < _i and sorted(set(seqs))[a] == t[0])),
+              forall(TInt, TStr, lambda a, y: implies(0 <= a and a < _i and (y in set(seqs)) and sorted(set(seqs))[a] < y
+                                                      and related(neighborhood, sorted(set(seqs))[a], y),
+                                                      member(pairs, (sorted(set(seqs))[a], y)))),
+              no_duplicates(pairs)])
+    # each unordered pair of distinct given sequences that are neighbours of each other: listed exactly once (in either orientation)
+    ensures(forall_in(result, lambda t: (t[0] in set(seqs)) and (t[1] in set(seqs)) and t[0] != t[1] and related(neighborhood, t[0], t[1])),
+            name="post[sound]")
+    ensures(forall(TStr, TStr, lambda a, b: implies((a in set(seqs)) and (b in set(seqs)) and a != b and related(neighborhood, a, b),
+                                                    member(result, (a, b)) or member(result, (b, a)))), name="post[complete]")
+    ensures(no_duplicates(result) and forall(TStr, TStr, lambda a, b: not (member(result, (a, b)) and member(result, (b, a)))),
+            name="post[each pair once]")
